@@ -1,7 +1,7 @@
 (* C20 - Sequence-number unwrapping and NTP conversion are exact and monotone.
    Statements only; proofs are in Proofs/. *)
 From IV Require Import Base.Word Model.Unwrapper Model.Ntp Proofs.UnwrapperProofs Proofs.NtpProofs Check.C20Check
-  Generated.GoCores Proofs.GeneratedEq.
+  Generated.GoCoresC20 Proofs.GeneratedEqC20.
 
 (* every output is non-negative, for every input sequence *)
 Theorem C20_unwrap_nonneg : forall l, all_u16 l -> Forall (fun r => 0 <= r) (unwrap_all None l).
